@@ -220,7 +220,7 @@ func cmdCheck(id, tier string) int {
 	spurious := 0
 	knownPrinted := map[string]bool{}
 	violPrinted := map[string]bool{}
-	os.MkdirAll(filepath.Join(verifDir, "replays"), 0o755)
+	os.MkdirAll(filepath.Join(outDir(), "replays"), 0o755)
 	for _, res := range results {
 		for i, v := range res.Violations {
 			if v.Known {
@@ -245,7 +245,7 @@ func cmdCheck(id, tier string) int {
 				continue
 			}
 			violPrinted[key] = true
-			path := filepath.Join(verifDir, "replays", fmt.Sprintf("%s-%s-%s-%d.json", id, res.Cfg.Name, sanitizeFile(v.AssertID), i))
+			path := filepath.Join(outDir(), "replays", fmt.Sprintf("%s-%s-%s-%d.json", id, res.Cfg.Name, sanitizeFile(v.AssertID), i))
 			rf := ReplayFile{Property: id, Harness: res.Cfg.Name, Pkg: res.Cfg.Pkg, Func: res.Cfg.Func, Assert: v.AssertID, Kind: v.Kind, Msg: v.Msg,
 				Model: v.Model, Trace: v.Trace, Observed: v.Observed, Params: res.Cfg.Params}
 			b, _ := json.MarshalIndent(rf, "", " ")
@@ -313,8 +313,8 @@ func writeEvidenceFailure(id, tier string, seed int, msg string, wall time.Durat
 		"wall_s":   wall.Seconds(), "violations": 0, "run_failed": msg,
 	}
 	b, _ := json.MarshalIndent(ev, "", " ")
-	os.MkdirAll(filepath.Join(verifDir, "evidence"), 0o755)
-	os.WriteFile(filepath.Join(verifDir, "evidence", id+".json"), b, 0o644)
+	os.MkdirAll(filepath.Join(outDir(), "evidence"), 0o755)
+	os.WriteFile(filepath.Join(outDir(), "evidence", id+".json"), b, 0o644)
 }
 
 func writeEvidence(ld *Loaded, def *CheckDef, id, tier string, seed int, results []*HarnessResult, inconclusive []string, nViol, replayed, spurious int, wall time.Duration) {
@@ -416,6 +416,17 @@ func writeEvidence(ld *Loaded, def *CheckDef, id, tier string, seed int, results
 		"assumptions": def.Assumptions, "wall_s": wall.Seconds(), "violations": nViol,
 	}
 	b, _ := json.MarshalIndent(ev, "", " ")
-	os.MkdirAll(filepath.Join(verifDir, "evidence"), 0o755)
-	os.WriteFile(filepath.Join(verifDir, "evidence", id+".json"), b, 0o644)
+	os.MkdirAll(filepath.Join(outDir(), "evidence"), 0o755)
+	os.WriteFile(filepath.Join(outDir(), "evidence", id+".json"), b, 0o644)
+}
+
+// outDir is where evidence and replay files go: /verif normally, a scratch
+// directory when the checks are pointed at a scratch worktree (GOSYM_REPO).
+func outDir() string {
+	if os.Getenv("GOSYM_REPO") != "" {
+		d := filepath.Join(os.TempDir(), "gosym-dev-out")
+		os.MkdirAll(d, 0o755)
+		return d
+	}
+	return verifDir
 }
